@@ -40,6 +40,7 @@ Unset   == 256       \* "no byte received at this index"
 (* Events.                                                                 *)
 (*   cls    get_mode is_onboard echo seed_byte pin_byte wipe sgx_onboard   *)
 (*          unlock change_pin exit get_pubkey admin stdin getpass urandom  *)
+(*          generated                                                      *)
 (*          (anything else: ignored)                                       *)
 (*   d_mode, d_onb   device ground truth when the event happened           *)
 (*   ans    the answer where it matters (mode name / yes,no / path string  *)
@@ -152,6 +153,8 @@ Observe(C, o0, e) ==
         [o EXCEPT !.changes = @ + 1, !.change_ok = e.ok,
                   !.pinpol = @ /\ (C.any_pin \/ Policy(p)),
                   !.pinhi = 0]
+    ELSE IF e.cls = "generated" THEN         \* a PIN produced by BasePin.generate_pin()
+        [o EXCEPT !.pinpol = @ /\ Policy(e.data)]
     ELSE IF e.cls = "get_pubkey" THEN [o EXCEPT !.keys = @ \cup {e.ans}]
     ELSE IF e.cls = "admin" THEN [o EXCEPT !.admin = @ + 1]
     ELSE IF e.cls = "exit" THEN [o EXCEPT !.exits = @ + 1]
@@ -172,8 +175,12 @@ OnboardSafeP(o) == o.onbsafe
 SeedFreshP(o)   == o.seedok /\ ~o.seedover
 \* unlock PINs only to an onboarded device in bootloader mode
 UnlockSafeP(o)  == o.unlsafe
-\* PINs set by onboard / changepin are policy compliant unless any-PIN was allowed
+\* PINs sent by onboard / changepin are exactly 8 ASCII alphanumerics with at least one ASCII
+\* letter unless any-PIN was allowed (generated PINs: always)
 PinPolicyP(o)   == o.pinpol
+\* ... and so is the PIN the device holds afterwards (ground truth: the device's view), once it
+\* has acknowledged a WIPE / SGX_ONBOARD / CHANGE_PIN
+PinHeldP(C, o, held) == ((~C.any_pin) /\ (o.wipe_ok = "t" \/ o.change_ok = "t")) => Policy(held)
 
 (***************************************************************************)
 (* Carried: when the preconditions hold the operation is carried out.      *)
@@ -243,7 +250,8 @@ CarriedP(C, o, out) ==
     IF C.op = "onboard" THEN CarriedOnboard(C, o, out)
     ELSE IF C.op = "unlock" THEN CarriedUnlock(C, o, out)
     ELSE IF C.op = "changepin" THEN CarriedChangepin(C, o, out)
-    ELSE CarriedPubkeys(C, o, out)
+    ELSE IF C.op = "pubkeys" THEN CarriedPubkeys(C, o, out)
+    ELSE TRUE        \* "genpin": PINs drawn from BasePin.generate_pin(), judged by PinPolicy only
 
 (***************************************************************************)
 (* PubkeysWritten.  files = [txt, json : Seq(<<path, key>>)] as read back  *)
